@@ -662,8 +662,8 @@ RT_KINDS = {
                  back="Schreibe ((v als Marke) als Text) auf eine Zeile.", bback="Schreibe (v als Text) auf eine Zeile.", shown="ab", default='("ab" als Marke)'),
     "Liste": dict(base="Zahlen Liste", bart="eine", d="Reihe", e="Folge", setup=["Die Zahlen Liste zl ist eine Liste, die aus 1, 2, 3 besteht."], val="zl als Reihe", bval="zl",
                   back="Schreibe (die Länge von ((v als Reihe) als Zahlen Liste)) auf eine Zeile.", bback="Schreibe (die Länge von (v als Zahlen Liste)) auf eine Zeile.", shown="3", default=None),
-    "Kombination": dict(base="Punkt", bart="ein", d="Stelle", e="Lage", setup=["Der Punkt pk ist Punkt(7, 2)."], val="pk als Stelle", bval="pk",
-                        back="Schreibe (x von ((v als Stelle) als Punkt)) auf eine Zeile.", bback="Schreibe (x von (v als Punkt)) auf eine Zeile.", shown="7", default=None),
+    "Kombination": dict(base="Punkt", bart="ein", d="Platz", e="Lage", setup=["Der Punkt pk ist Punkt(7, 2)."], val="pk als Platz", bval="pk",
+                        back="Schreibe (x von ((v als Platz) als Punkt)) auf eine Zeile.", bback="Schreibe (x von (v als Punkt)) auf eine Zeile.", shown="7", default=None),
 }
 RT_ROUTES = ("cast", "init", "assign", "argument", "field", "field-default", "return", "list-element")
 
@@ -734,6 +734,12 @@ def leg_runtime(ck, b):
     for (kind, route, conv), src, expect, r in vlib.pmap(run, jobs):
         ck.count()
         what = "%s value of a definition of %s" % ("base" if conv else "definition", kind) if False else ("a %s put into a Variable by route '%s'" % ("value of the base type %s" % kind if conv else "value of a definition of %s" % kind, route))
+        if r["stage"] != "ok" and ("Unerwarteter Fehler" in r["out"] or "goroutine" in r["out"] or "ein Bug im DDP-Kompilierer" in r["out"]):
+            # the frontend accepted the conversions between the definition and its base, the compiler cannot translate them
+            ck.violation("definition-conversion-crash kind=%s route=%s held=%s" % (kind, route, "base" if conv else "definition"),
+                         "the program converting between a definition of %s and its base is accepted by the frontend but crashes the compiler: %s" % (kind, r["out"][:300]),
+                         dict(program=src, compiler_output=r["out"], how="kddp kompiliere main.ddp"))
+            continue
         if r["stage"] != "ok":
             bad_build.append((kind, route, conv, r["out"], src))
             continue
